@@ -122,6 +122,23 @@ def generate(rs: int, tier: str, index: int) -> dict:
             extra = [e for e in ([1] * len(names), [3] + [0] * (len(names) - 1)) if e not in a["exponents"]]
             zero = [0j if False else 0] * len(a["coefficients"][0]) if a["coefficients"] else []
             b = {"poly": dict(a, exponents=a["exponents"] + extra[:1], coefficients=a["coefficients"] + ([[[0.0, 0.0]] * len(zero)] if kindc == "complex" else [[0.0 if kindc == "float" else 0] * len(zero)]) * len(extra[:1]))}
+        elif mode < 7 and ch.sub("dense").chance(0.25):
+            # dense operands: every monomial up to a degree, 66-84 terms in all (a score accumulated over the terms must
+            # not run out of bits), differing in one high-ranking and one low-ranking coefficient
+            cd = ch.sub("dense")
+            dnames = names[:2] if len(names) >= 2 and cd.chance(0.6) else (names + ["q12", "q13"])[:3]
+            nvd = len(dnames)
+            top = 10 if nvd == 2 else 6
+            import itertools
+
+            exps = [list(e) for e in itertools.product(range(top + 1), repeat=nvd) if sum(e) <= top]
+            coeffs_a = [[cd.choice([-2, -1, 1, 2, 3])] for _ in exps]
+            coeffs_b = [list(c) for c in coeffs_a]
+            for which in (cd.below(len(exps)), cd.below(len(exps))):
+                coeffs_b[which] = [coeffs_a[which][0] + cd.choice([-1, 1])]
+            a = {"names": list(dnames), "shape": [], "dtype": "int64", "exponents": exps, "coefficients": coeffs_a, "retain": True}
+            b = {"poly": {"names": list(dnames), "shape": [], "dtype": "int64", "exponents": [list(e) for e in exps], "coefficients": coeffs_b, "retain": True}}
+            shape = ()
         elif mode < 7:
             # the same storage layout (shape, dtype, term keys) over other indeterminates: only the names tuple differs
             pool = [n for n in ["q0", "q1", "q2", "q3", "q10", "q12"] if n not in names]
